@@ -269,6 +269,9 @@ type heldLock struct {
 	ID, Base  string // "Struct.mutexField", base expression as written
 	W         bool
 	Inherited bool
+	Own       bool // acquired in the body being walked (not by a caller, not by the enclosing function of a literal)
+	Def       int  // a deferred release is pending: 1 `defer x.Unlock()`, 2 inside a deferred function literal (may be conditional)
+	Acq       int  // serial number of the acquisition in the body: two accesses with the same number are in one critical section
 }
 
 type lockSet []heldLock
@@ -282,6 +285,11 @@ func (s lockSet) find(id, base string) int {
 	}
 	return -1
 }
+
+// mayMode: the walk computes the locks that MAY be held (union at joins) instead of those that MUST be;
+// only the release check uses it.
+var mayMode bool
+
 func meet(a, b lockSet) lockSet {
 	var out lockSet
 	for _, l := range a {
@@ -289,7 +297,22 @@ func meet(a, b lockSet) lockSet {
 			x := l
 			x.W = l.W && b[i].W // held for writing on one path, for reading on the other: held for reading
 			x.Inherited = l.Inherited || b[i].Inherited
+			if b[i].Def < x.Def {
+				x.Def = b[i].Def // a release is pending only if it is on both paths
+			}
+			if b[i].Acq != x.Acq {
+				x.Acq = 0
+			}
 			out = append(out, x)
+		} else if mayMode {
+			out = append(out, l)
+		}
+	}
+	if mayMode {
+		for _, l := range b {
+			if a.find(l.ID, l.Base) < 0 {
+				out = append(out, l)
+			}
 		}
 	}
 	return out
@@ -353,6 +376,9 @@ type node struct {
 	Accesses []accessRec
 	Calls    []callRec
 	Acquires []acqRec
+	Leaks    []string // locks acquired in the body and held at some exit (must analysis), then (may analysis)
+	MayLeaks []string
+	Doubles  []string
 	Api      bool
 	ApiS     bool // query-reachable without passing through a call on a freshly created (private) object
 	ApiFrom  string
@@ -1043,13 +1069,17 @@ type collector struct {
 }
 
 type walker struct {
-	pa    *pkgAnalysis
-	n     *node
-	stack []*collector
-	acc   []accessRec
-	calls []callRec
-	acqs  []acqRec
-	inRet bool
+	pa       *pkgAnalysis
+	n        *node
+	stack    []*collector
+	acc      []accessRec
+	calls    []callRec
+	acqs     []acqRec
+	inRet    bool
+	serial   int
+	relSince map[string]bool // explicitly released since the last acquisition (for the double-release check)
+	leaks    []string        // "lock" held at a return / at the end, acquired here, no release pending
+	doubles  []string        // "lock" released although a deferred release is pending, or released twice in a row
 }
 
 func exprStr(e ast.Expr) string { return types.ExprString(e) }
@@ -1121,6 +1151,15 @@ func (w *walker) branch(held lockSet) {
 	}
 }
 
+// atExit: the function returns here with these locks held
+func (w *walker) atExit(held lockSet) {
+	for _, l := range held {
+		if l.Own && l.Def == 0 {
+			w.leaks = append(w.leaks, l.ID)
+		}
+	}
+}
+
 func (w *walker) stmts(list []ast.Stmt, in lockSet) (lockSet, bool) {
 	cur := in
 	for _, s := range list {
@@ -1151,28 +1190,59 @@ func (w *walker) stmt(s ast.Stmt, in lockSet) (lockSet, bool) {
 	case *ast.ExprStmt:
 		if id, base, op, ok := w.lockOp(x.X); ok {
 			out := in.clone()
+			key := id + "@" + base
+			if w.relSince == nil {
+				w.relSince = map[string]bool{}
+			}
 			switch op {
 			case "Lock", "RLock":
 				w.acqs = append(w.acqs, acqRec{ID: id, Base: base, W: op == "Lock", Line: w.pa.fset.Position(x.Pos()).Line, Held: in.clone()})
 				if i := out.find(id, base); i >= 0 {
 					out = append(out[:i], out[i+1:]...)
 				}
-				out = append(out, heldLock{ID: id, Base: base, W: op == "Lock"})
+				w.serial++
+				out = append(out, heldLock{ID: id, Base: base, W: op == "Lock", Own: true, Acq: w.serial})
+				w.relSince[key] = false
 			default:
 				if i := out.find(id, base); i >= 0 {
+					if out[i].Def == 1 {
+						w.doubles = append(w.doubles, id) // the deferred Unlock will release it again
+					}
 					out = append(out[:i], out[i+1:]...)
+				} else if w.relSince[key] {
+					w.doubles = append(w.doubles, id)
 				}
+				w.relSince[key] = true
 			}
 			return out, false
 		}
 		w.expr(x.X, in, false)
 		return in, isPanicCall(x.X)
 	case *ast.DeferStmt:
-		if _, _, op, ok := w.lockOp(x.Call); ok && (op == "Unlock" || op == "RUnlock") {
-			return in, false // released when the function returns
+		if id, base, op, ok := w.lockOp(x.Call); ok && (op == "Unlock" || op == "RUnlock") {
+			out := in.clone()
+			if i := out.find(id, base); i >= 0 {
+				out[i].Def = 1
+			}
+			return out, false // released when the function returns
+		}
+		out := in
+		if fl, ok := x.Call.Fun.(*ast.FuncLit); ok {
+			// defer func() { ... x.Unlock() ... }(): a (possibly conditional) release at the end
+			out = in.clone()
+			ast.Inspect(fl.Body, func(nn ast.Node) bool {
+				if es, ok := nn.(*ast.ExprStmt); ok {
+					if id, base, op, ok := w.lockOp(es.X); ok && (op == "Unlock" || op == "RUnlock") {
+						if i := out.find(id, base); i >= 0 && out[i].Def == 0 {
+							out[i].Def = 2
+						}
+					}
+				}
+				return true
+			})
 		}
 		w.deferred(x.Call, in)
-		return in, false
+		return out, false
 	case *ast.GoStmt:
 		w.deferred(x.Call, in)
 		return in, false
@@ -1219,6 +1289,7 @@ func (w *walker) stmt(s ast.Stmt, in lockSet) (lockSet, bool) {
 			w.expr(r, in, false)
 		}
 		w.inRet = false
+		w.atExit(in)
 		return in, true
 	case *ast.BranchStmt:
 		switch x.Tok {
@@ -1741,8 +1812,15 @@ func (pa *pkgAnalysis) analyse() {
 			}
 			w := &walker{pa: pa, n: n}
 			n.Goto = false
-			w.stmts(n.Body.List, entry.clone())
+			seed := entry.clone()
+			for i := range seed {
+				seed[i].Own, seed[i].Def, seed[i].Acq = false, 0, 0
+			}
+			if out, term := w.stmts(n.Body.List, seed); !term {
+				w.atExit(out)
+			}
 			n.Accesses, n.Calls, n.Acquires = w.acc, w.calls, w.acqs
+			n.Leaks, n.Doubles = w.leaks, w.doubles
 			if n.Goto {
 				for i := range n.Accesses {
 					n.Accesses[i].Held = nil
@@ -1822,10 +1900,38 @@ func (pa *pkgAnalysis) analyse() {
 			}
 		}
 		if !changed {
+			pa.mayPass()
 			return
 		}
 	}
 	pa.errs = append(pa.errs, "LOCKSET_FIXPOINT_NOT_REACHED")
+}
+
+// mayPass: the bodies once more with union at the joins: a lock that MAY be held at an exit and has no release
+// pending.  Nothing else of this pass is kept.
+func (pa *pkgAnalysis) mayPass() {
+	mayMode = true
+	defer func() { mayMode = false }()
+	for _, name := range pa.order {
+		n := pa.nodes[name]
+		if n.Goto {
+			continue
+		}
+		// the side effects of a walk on other nodes (LitHeld, AsValue) are those of the last must pass: restore them
+		saved := map[*node]*lockSet{}
+		for _, x := range pa.nodes {
+			saved[x] = x.LitHeld
+		}
+		w := &walker{pa: pa, n: n}
+		if out, term := w.stmts(n.Body.List, nil); !term {
+			w.atExit(out)
+		}
+		n.Goto = false
+		for _, x := range pa.nodes {
+			x.LitHeld = saved[x]
+		}
+		n.MayLeaks = w.leaks
+	}
 }
 
 // reachShared marks ApiS: reachable from the query entry points through calls on shared objects only.
@@ -1933,6 +2039,7 @@ func guardEval(a *accessRec) (held []string, readOK, writeOK, inherited bool) {
 type lockTable struct {
 	relocks           []string       // a mutex acquired while the same thread already holds it
 	relocksIrrelevant []string       // RLock inside RLock where no other goroutine can ask for the write lock
+	lockLeaks         []string       // a lock acquired in a function and still held on some return path / released twice
 	unguardedCount    map[string]int // unguarded accesses per site key
 	reviewed          []string       // static keys covered by reviewedSites (with the pinned number of accesses)
 	reported          []string       // static keys not covered: what the harness reports
@@ -2278,6 +2385,58 @@ func (t *lockTable) findNonAtomicFills(pas map[string]*pkgAnalysis) {
 					}
 				}
 			}
+			// the same inside one function: the field is read under its guard in one critical section and written in
+			// a LATER critical section of the same function that does not read it again before the write (no
+			// re-check): the value checked (a map entry absent, a flag false) may have changed in between
+			intra := map[string]bool{}
+			for _, name := range pa.order {
+				n := pa.nodes[name]
+				if n.Init || n.Goto {
+					continue
+				}
+				type ga struct {
+					acq, line int
+					write     bool
+				}
+				var gas []ga
+				for i := range n.Accesses {
+					a := &n.Accesses[i]
+					if a.Field != field || a.Fresh {
+						continue
+					}
+					acq := 0
+					for _, g := range a.spec.Guards {
+						for _, l := range a.Held {
+							if l.ID == g.GStruct+"."+g.GField && l.Own {
+								acq = l.Acq
+							}
+						}
+					}
+					if acq > 0 {
+						gas = append(gas, ga{acq, a.Line, a.Write})
+					}
+				}
+				for _, wr := range gas {
+					if !wr.write {
+						continue
+					}
+					recheck, earlier := false, false
+					for _, rd := range gas {
+						if rd.write {
+							continue
+						}
+						if rd.acq == wr.acq && rd.line <= wr.line {
+							recheck = true
+						}
+						if rd.acq != wr.acq && rd.line < wr.line {
+							earlier = true
+						}
+					}
+					if earlier && !recheck {
+						intra[name] = true
+					}
+				}
+			}
 			// a function with a non-atomic fill is itself a lookup that comes back with the lock released
 			flagged := map[string]bool{}
 			for again := true; again; {
@@ -2306,7 +2465,7 @@ func (t *lockTable) findNonAtomicFills(pas map[string]*pkgAnalysis) {
 				}
 			}
 			for _, name := range pa.order {
-				if n := pa.nodes[name]; flagged[name] && n.ApiS {
+				if n := pa.nodes[name]; (flagged[name] || intra[name]) && n.ApiS {
 					t.nonatomic = append(t.nonatomic, fmt.Sprintf("c25-nonatomic-fill:%s:%s:%s", n.File, name, field))
 				}
 			}
@@ -2392,6 +2551,7 @@ func buildLockTable() *lockTable {
 	}
 	t.lockOrder(pas)
 	t.findRelocks(pas)
+	t.findLockLeaks(pas)
 	t.findNonAtomicFills(pas)
 	// a field is shared when a non-init access to it is query-reachable
 	shared := map[string]bool{}
@@ -2484,8 +2644,53 @@ func buildLockTable() *lockTable {
 	return t
 }
 
+// findLockLeaks: per function body (function literals apart), every path to a return or to the end must have
+// released, or have a deferred release pending for, every lock the body acquired; and must not release a lock
+// for which an unconditional deferred release is pending, or twice in a row.  Both the MUST analysis (definitely
+// held at the exit) and the MAY analysis (held on some path to the exit: union at joins) report.
+func (t *lockTable) findLockLeaks(pas map[string]*pkgAnalysis) {
+	seen := map[string]bool{}
+	for _, spec := range lockPkgs {
+		pa := pas[spec.Dir]
+		if pa == nil {
+			continue
+		}
+		for _, name := range pa.order {
+			n := pa.nodes[name]
+			top := n
+			for top.Parent != nil {
+				top = top.Parent
+			}
+			if top.Dead {
+				continue
+			}
+			add := func(kind, id string) {
+				k := fmt.Sprintf("%s:%s:%s:%s", kind, n.File, name, id)
+				if !seen[k] {
+					seen[k] = true
+					t.lockLeaks = append(t.lockLeaks, k)
+				}
+			}
+			for _, id := range n.Leaks {
+				add("c25-lock-not-released", id)
+			}
+			for _, id := range n.MayLeaks {
+				add("c25-lock-not-released", id)
+				t.unguardedCount[fmt.Sprintf("c25-lock-not-released:%s:%s:%s", n.File, name, id)]++ // one per exit
+			}
+			for _, id := range n.Doubles {
+				add("c25-lock-released-twice", id)
+			}
+			if os.Getenv("XLATE_LOCKS_DEBUG") != "" && (len(n.Leaks)+len(n.MayLeaks)+len(n.Doubles) > 0) {
+				fmt.Fprintf(os.Stderr, "LOCKBALANCE %s %s must=%v may=%v twice=%v\n", n.File, name, n.Leaks, n.MayLeaks, n.Doubles)
+			}
+		}
+	}
+}
+
 func (t *lockTable) allStatic() []string {
 	all := append([]string{}, t.unguarded...)
+	all = append(all, t.lockLeaks...)
 	all = append(all, t.cycles...)
 	all = append(all, t.relocks...)
 	return append(all, t.nonatomic...)
@@ -2534,6 +2739,15 @@ func (r reviewedSite) holds() bool {
 }
 
 var reviewedSites = map[string]reviewedSite{
+	"c25-lock-not-released:coreV2/state/candidates/candidates.go:Candidates.Commit:Candidates.muDeletedCandidates": {Count: 1,
+		Why:       "Candidates.Commit returns the encoding error with the lock still held: State.Commit hands the error to Blockchain.Commit, which panics on it (the process stops, nobody waits for the lock); rlp encoding of this type does not fail",
+		PresentIn: [][2]string{{"coreV2/minter/blockchain.go", "hash, err := blockchain.stateDeliver.Commit()"}, {"coreV2/minter/blockchain.go", "panic(err)"}}},
+	"c25-lock-not-released:coreV2/state/waitlist/waitlist.go:WaitList.Commit:Model.lock": {Count: 1,
+		Why:       "WaitList.Commit returns the encoding error with the lock still held: State.Commit hands the error to Blockchain.Commit, which panics on it (the process stops, nobody waits for the lock); rlp encoding of this type does not fail",
+		PresentIn: [][2]string{{"coreV2/minter/blockchain.go", "hash, err := blockchain.stateDeliver.Commit()"}, {"coreV2/minter/blockchain.go", "panic(err)"}}},
+	"c25-lock-not-released:coreV2/state/frozenfunds/frozen_funds.go:FrozenFunds.Commit:Model.lock": {Count: 1,
+		Why:       "FrozenFunds.Commit returns the encoding error with the lock still held: State.Commit hands the error to Blockchain.Commit, which panics on it (the process stops, nobody waits for the lock); rlp encoding of this type does not fail",
+		PresentIn: [][2]string{{"coreV2/minter/blockchain.go", "hash, err := blockchain.stateDeliver.Commit()"}, {"coreV2/minter/blockchain.go", "panic(err)"}}},
 	"c25-relock:coreV2/state/validators/validators.go:Validators.IsValidator->Validators.GetValidators:Validators.lock": {Count: 0,
 		Why:         "RLock inside RLock deadlocks only if another goroutine asks for the write lock in between. IsValidator is called only by Candidates.DeleteCandidate (block execution). The write lock of Validators.lock is requested by block execution (Commit, SetNewValidators, SetValidators, TotalStakes) and by Count(), which only IsDelegatorStakeAllowed reaches: the Delegate transaction, i.e. DeliverTx (the same goroutine) and CheckTx, which the local ABCI client serialises with block execution (one mutex for all connections); no API or CLI handler calls either",
 		AbsentBelow: map[string][]string{"api/": {"IsDelegatorStakeAllowed(", ".IsValidator(", "Validators().Count("}, "cli/": {"IsDelegatorStakeAllowed(", ".IsValidator(", "Validators().Count("}},
@@ -2596,6 +2810,8 @@ func genLocks() string {
 	fmt.Fprintf(&sb, "Definition xlate_lock_cycles : list string := %s.\n\n", coqStrList(t.cycles))
 	sb.WriteString("(* re-acquisition of a mutex the thread already holds (Go mutexes are not reentrant; Lockset.run_ls rejects it) *)\n")
 	fmt.Fprintf(&sb, "Definition xlate_relocks : list string := %s.\n\n", coqStrList(t.relocks))
+	sb.WriteString("(* a lock acquired by a function and still held on a return path, or released twice *)\n")
+	fmt.Fprintf(&sb, "Definition xlate_lock_leaks : list string := %s.\n\n", coqStrList(t.lockLeaks))
 	fmt.Fprintf(&sb, "Definition xlate_relocks_irrelevant : list string := %s. (* RLock inside RLock, no other goroutine ever asks for the write lock *)\n\n", coqStrList(t.relocksIrrelevant))
 	sb.WriteString("(* cache fills whose absence check and store are separate critical sections (Lockset: QStore, not QFill) *)\n")
 	fmt.Fprintf(&sb, "Definition xlate_nonatomic_fills : list string := %s.\n\n", coqStrList(t.nonatomic))
